@@ -127,6 +127,16 @@ def stepLine (d : D) (line : String) : D × String :=
                       idents := if idents == "*" then none else some (parseNatList idents), startsecs := startsecs.toNat!,
                       stopSeq := stseq.toNat!, stopwaitsecs := stopwait.toNat! }
     lift ({ w with pcfg := w.pcfg ++ [c], procs := w.procs ++ [{}] }, "ok")
+  | ["op", now, "teststart", a, strat] =>
+    -- prediction: the world is not touched
+    let w := { w with now := now.toNat!, out := [] }
+    let outs := testStartApplication w a.toNat! (Strategy.ofCode strat.toNat!)
+    let items := outs.filterMap (fun o => match o with
+      | .start p i _ _ => some (p, s!"{p}>{i}")
+      | .force p _ true _ => some (p, s!"{p}!")
+      | _ => none)
+    let sorted := (sortNat (items.map (·.1))).eraseDups.flatMap (fun p => (items.filter (·.1 == p)).map (·.2))
+    ({ d with w := w }, s!"pred=[{",".intercalate sorted}] | J:ok")
   | "op" :: now :: rest =>
     let w := { w with now := now.toNat!, out := [] }
     match action rest with
